@@ -8,6 +8,9 @@ package bag
 // return-from / go marker an evaluation hands back: nothing more is evaluated
 // and the marker is the function's result.
 //@ every-function bag forward-exits
+// C05, package-wide (thorough tier): no function makes a number that existed
+// when it was entered the target of a mutating math/big method.
+//@ every-function bag operands-kept
 
 // C18: bag-remove stores what the path removal returns (removing an element
 // of a root array yields a new array).
